@@ -44,6 +44,9 @@ def run(tier):
     # the call syntax with four arguments (every mix of index / range / all) on 4-dimensional roots
     cp = constants("quick"); cp.update({"MaxD": 4, "MaxExt": 2, "MaxDepth": 1, "ParenArgs": 4, "ParenLean": False, "OpNames": {"paren"}, "MaxDim": 5})
     runs.append(("c01_paren4", cp))
+    # four-dimensional roots under every composition of up to three dimension permutations, all access paths
+    c4 = constants("quick"); c4.update({"MaxD": 4, "MaxExt": 2, "MaxDepth": 3, "OpNames": {"rotated", "unrotated", "transposed"}})
+    runs.append(("c01_d4_perm", c4))
     exhaustive = True
     sims = {}
     # beyond the exhaustive bound: random programs over larger extents (sizes up to 6, which are not all multiples of each other,
